@@ -2,13 +2,17 @@
    Property theorems only.  Model: Model/Condorcet.v; proofs: Proofs/Condorcet_proofs.v.
 
    Proved for every pairwise dictionary (distinct keys, non-negative counts, absent
-   pair = 0): Copeland (raw and second-order) elects the Condorcet winner alone.
-   The remaining clauses of the property (Schulze / minimax / ranked pairs / Kemeny
-   Condorcet-winner consistency, Smith-efficiency, nobody dropped) are stated below
-   as full statements and are decided per case by the verified-model correspondence
-   plus brute-force references in the check (C05 evidence: "partial"). *)
+   pair = 0): Copeland (raw and second-order), minimax (winning votes, margins) and
+   Schulze (every iteration order of the candidate set) elect the Condorcet winner
+   alone; minimax and Schulze drop nobody; the Schulze table is the table of strongest
+   beat-paths and the Schulze ranking does not depend on the iteration order.
+   The remaining clauses of the property (ranked pairs / Kemeny Condorcet-winner
+   consistency, Smith-efficiency of the others, nobody dropped for Copeland second
+   order) are stated below as full statements and are decided per case by the
+   verified-model correspondence plus brute-force references in the check
+   (C05 evidence: "partial"). *)
 From Coq Require Import ZArith List Arith.
-From VL Require Import Prelude.PyDict Model.GetNBest Model.Condorcet Proofs.Condorcet_proofs Proofs.CopelandMono_proofs Proofs.SmithCopeland_proofs Proofs.Minimax_proofs.
+From VL Require Import Prelude.PyDict Model.GetNBest Model.Condorcet Proofs.Condorcet_proofs Proofs.CopelandMono_proofs Proofs.SmithCopeland_proofs Proofs.Minimax_proofs Proofs.Schulze_proofs.
 Import ListNotations.
 Open Scope Z_scope.
 
@@ -43,6 +47,45 @@ Proof.
   intros v w Hnd Hnn H2 H. rewrite copeland_raw_is_first_order in H. exact (copeland_in_smith v w Hnd Hnn H2 H).
 Qed.
 
+(* Schulze elects the Condorcet winner alone - whatever order the candidate set is iterated in (the code iterates a
+   Python set): nothing reaches the Condorcet winner (column c of the table stays 0) and its direct wins are never lost *)
+Theorem C05_cw_schulze : forall (v : pvotes) (order : list C) c,
+  NoDup (map fst v) -> (forall p n, In (p, n) v -> 0 <= n) ->
+  is_cw v c -> schulze v order 1 = [Cand c].
+Proof. intros v order c Hnd Hnn Hcw. exact (schulze_elects_cw v Hnd Hnn order c Hcw). Qed.
+
+(* with as many seats as candidates every candidate of the dictionary is listed (as a plain entry, not inside a tie) *)
+Theorem C05_schulze_nobody_dropped : forall (v : pvotes) (order : list C) x,
+  NoDup (map fst v) -> (forall p n, In (p, n) v -> 0 <= n) ->
+  In x (candidates v) -> In (Cand x) (schulze v order (length (candidates v))).
+Proof. intros v order x Hnd Hnn. exact (schulze_nobody_dropped v Hnd Hnn order x). Qed.
+
+(* the defining computation: for a positive s and a <> b the table entry (a, b) is at least s exactly when there is a chain
+   of direct wins from a to b each carried by at least s winning votes ([reach], Proofs/Schulze_proofs.v; [d0 v a b] = votes
+   for a over b if a beats b, else 0) - i.e. the entry is the strength of the strongest beat-path, and 0 when there is none *)
+Theorem C05_schulze_strongest_paths : forall (v : pvotes) (order : list C) a b s,
+  NoDup (map fst v) -> incl (candidates v) order ->
+  0 < s -> a <> b ->
+  (s <= pget0 (widest_paths v order) (a, b) <-> reach v s a b).
+Proof. intros v order a b s Hnd Hi Hs Hab. exact (wp_spec v Hnd order a b s Hi Hs Hab). Qed.
+
+(* the score each candidate is ranked by is its number of path-wins *)
+Theorem C05_schulze_score : forall (v : pvotes) (order : list C),
+  NoDup (map fst v) -> (forall p n, In (p, n) v -> 0 <= n) ->
+  forall n, schulze v order n =
+    get_n_best zle_bool (map (fun c => (c, Z.of_nat (length (opponents (widest_paths v order) c)))) (candidates v)) n.
+Proof. intros v order Hnd Hnn n. rewrite schulze_unfold. fold (sscores v order). rewrite (sscores_canonical v Hnd Hnn order). reflexivity. Qed.
+Theorem C05_schulze_path_win : forall (v : pvotes) (order : list C) c x,
+  NoDup (map fst v) -> (forall p n, In (p, n) v -> 0 <= n) ->
+  (In x (opponents (widest_paths v order) c) <-> pget0 (widest_paths v order) (x, c) < pget0 (widest_paths v order) (c, x)).
+Proof. intros v order c x Hnd Hnn. exact (opponents_spec _ (P_nodup v Hnd order) (P_nonneg v Hnd Hnn order) c x). Qed.
+
+(* the result does not depend on the order in which the candidate set is iterated *)
+Theorem C05_schulze_order_irrelevant : forall (v : pvotes) (order1 order2 : list C) n,
+  NoDup (map fst v) -> (forall p n, In (p, n) v -> 0 <= n) ->
+  incl (candidates v) order1 -> incl (candidates v) order2 -> schulze v order1 n = schulze v order2 n.
+Proof. intros v o1 o2 n Hnd Hnn H1 H2. exact (schulze_order_irrelevant v Hnd Hnn o1 o2 n H1 H2). Qed.
+
 Definition well_formed (v : pvotes) : Prop :=
   NoDup (map fst v) /\ (forall p n, In (p, n) v -> 0 <= n) /\ (2 <= length (candidates v))%nat.
 Definition first_is (r : list (res C)) (c : C) : Prop := exists t, r = Cand c :: t.
@@ -60,6 +103,24 @@ Definition C05_nobody_dropped_full_statement : Prop :=
     In x (flat (copeland true v n)) /\ In x (flat (schulze v (candidates v) n)) /\
     In x (flat (minimax WinningVotes v n)).
 
+(* the Schulze and minimax parts of the two full statements, as stated *)
+Theorem C05_cw_full_schulze_minimax : forall v c, well_formed v -> is_cw v c ->
+  first_is (schulze v (candidates v) 1) c /\
+  first_is (minimax WinningVotes v 1) c /\ first_is (minimax Margins v 1) c.
+Proof.
+  intros v c (Hnd & Hnn & H2) Hcw. split; [exists []; exact (schulze_elects_cw v Hnd Hnn (candidates v) c Hcw)|].
+  split; exists []; apply (minimax_elects_cw v Hnn H2); [discriminate|exact Hcw|discriminate|exact Hcw].
+Qed.
+Theorem C05_nobody_dropped_full_schulze_minimax : forall v x, well_formed v -> In x (candidates v) ->
+  let n := length (candidates v) in
+  let flat r := flat_map (fun e => match e with Cand c => [c] | TieR l => l end) r in
+  In x (flat (schulze v (candidates v) n)) /\ In x (flat (minimax WinningVotes v n)).
+Proof.
+  intros v x (Hnd & Hnn & H2) Hx n flat. split; apply in_flat_map; exists (Cand x); (split; [|left; reflexivity]).
+  - exact (schulze_nobody_dropped v Hnd Hnn (candidates v) x Hx).
+  - exact (minimax_nobody_dropped v H2 WinningVotes x Hx).
+Qed.
+
 (* non-vacuity *)
 Example C05_example :
   copeland true [((1%positive, 2%positive), 3); ((2%positive, 1%positive), 1);
@@ -67,8 +128,25 @@ Example C05_example :
                  ((2%positive, 3%positive), 2); ((3%positive, 2%positive), 2)] 1 = [Cand 1%positive].
 Proof. vm_compute. reflexivity. Qed.
 
+(* Schulze, a sparse dictionary (candidate 1 was never ranked below anyone: no incoming pair) iterated in another order,
+   and a five-candidate election without a Condorcet winner where the ranking comes from the beat-paths *)
+Example C05_schulze_example :
+  schulze [((1%positive, 2%positive), 3); ((1%positive, 3%positive), 3);
+           ((2%positive, 3%positive), 2); ((3%positive, 2%positive), 2)] [3%positive; 1%positive; 2%positive] 3
+    = [Cand 1%positive; Cand 2%positive; Cand 3%positive] /\
+  schulze mono_v (candidates mono_v) 5 = [Cand 3%positive; Cand 2%positive; Cand 5%positive; Cand 1%positive; Cand 4%positive].
+Proof. vm_compute. split; reflexivity. Qed.
+
 Print Assumptions C05_cw_copeland.
 Print Assumptions C05_copeland_score.
 Print Assumptions C05_smith_copeland.
 Print Assumptions C05_cw_minimax.
 Print Assumptions C05_minimax_nobody_dropped.
+Print Assumptions C05_cw_schulze.
+Print Assumptions C05_schulze_nobody_dropped.
+Print Assumptions C05_schulze_strongest_paths.
+Print Assumptions C05_schulze_score.
+Print Assumptions C05_schulze_path_win.
+Print Assumptions C05_schulze_order_irrelevant.
+Print Assumptions C05_cw_full_schulze_minimax.
+Print Assumptions C05_nobody_dropped_full_schulze_minimax.
